@@ -377,6 +377,7 @@ def exec_swaps(bs, terms, offset, qn_size, via, algo, swaps, mpo=None):
                     events.append((f"swap:{cls}:AssertionError@check_swap_consistency{hist}:{verdict}{qrw}", idx, res))
                     if verdict == "spurious-result-correct-without-check":
                         cur = new
+                        uses_qr = uses_qr or salgo == "qr"      # the retry DID carry out the swap with that algorithm
                         continue
                     return events, n_ok, worst
                 qrw = wide if (cls == "qr" or uses_qr) else ""
